@@ -171,7 +171,7 @@ pub fn run(tier: Tier, replay: Option<&str>) -> i32 {
     rep.notes.push(format!("untyped half uses every {step}-th query of the C05 scope ({} pairs)", idx.len()));
     // native half: all ordered pairs of a reduced corpus
     let all = corpus_all::entries();
-    let reduced: Vec<usize> = (0..all.len()).filter(|i| i % tier.pick(5, 2) == 0 || all[*i].name.len() < 10).collect();
+    let reduced: Vec<usize> = (0..all.len()).filter(|i| i % tier.pick(5, 2) == 0 || all[*i].name.len() < 10 || all[*i].name.contains("Evt") || all[*i].name.contains("Hold") || all[*i].name.contains("Kind")).collect();
     drop(all);
     let m = reduced.len() as u64;
     let r2 = ctx.par_range("native: ordered pairs of corpus types accepted by the checker", m * m, 256, corpus_all::entries, |es, k, rep| {
